@@ -74,6 +74,10 @@ class Algebra:
                         d[x] -= n
                         if p not in self.nonzero:
                             self.nonzero.append(p)
+        for k in list(d):
+            info = self.atoms.get(k)
+            if info and info[0] == "ind" and d[k] > 1:
+                d[k] = 1                                   # an indicator is idempotent
         return tuple(sorted((k, e) for k, e in d.items() if e != 0))
 
     def mul(self, p, q):
@@ -143,6 +147,10 @@ class Algebra:
             return self.mul(self.from_term(ch[0]), self.inv(self.from_term(ch[1])))
         if k == z3.Z3_OP_TO_REAL:
             return self.int_atom(ch[0])
+        if k == z3.Z3_OP_ITE:
+            # If(c, x, y) = [c] x + (1 - [c]) y with the indicator [c] as an atom (keyed by the condition's text)
+            ind = self.atom("ind[" + str(z3.simplify(ch[0])) + "]", ("ind", ch[0]))
+            return self.add(self.mul(ind, self.from_term(ch[1])), self.mul(self.add(self.const(1), self.neg(ind)), self.from_term(ch[2])))
         if k == z3.Z3_OP_UNINTERPRETED:
             if t.num_args() == 0:
                 return self.atom(str(t), ("const", t))
@@ -166,7 +174,7 @@ class Algebra:
                 return self.atom(key, ("ext", ch[0], ch[1], dep, body, d.is_max))
             if all(z3.is_int(c) for c in ch):
                 return self.atom(str(t), ("const", t))          # array read
-            raise Unsupported(f"calculus: function {t.decl().name()}")
+            return self.atom("uf:" + str(t), ("ufapp", t))        # other uninterpreted application (powr, sqrt, ...): an opaque atom
         raise Unsupported(f"calculus: operator {t.decl().name()}")
 
     def int_atom(self, t):
@@ -178,7 +186,7 @@ class Algebra:
         """does atom `key` mention the bound variable of nesting depth `depth`?"""
         info = self.atoms[key]
         name = f"kappa!{depth}"
-        if info[0] in ("const", "opaque"):
+        if info[0] in ("const", "opaque", "ind", "ufapp"):
             return name in str(info[1])
         if info[0] in ("exp", "inv"):
             return any(self.mentions(k, depth) for m in info[1] for k, _ in m)
@@ -224,6 +232,12 @@ class Algebra:
             return self.sum(info[1], info[2], info[3], self.diff(info[4], v))
         if info[0] == "opaque":
             raise Unsupported("derivative of an opaque term")
+        if info[0] == "ind":
+            raise Unsupported("derivative of a piecewise term")
+        if info[0] == "ufapp":
+            if str(v) in str(info[1]):
+                raise Unsupported("derivative of an uninterpreted application")
+            return {}
         if info[0] == "ext":
             if not self.depends(info[4], v):
                 return {}
@@ -242,6 +256,9 @@ class Algebra:
                 info = self.atoms[k]
                 if info[0] == "const":
                     if info[1].eq(v):
+                        return True
+                elif info[0] in ("ind", "ufapp"):
+                    if str(v) in str(info[1]):
                         return True
                 elif info[0] in ("exp", "inv"):
                     if self.depends(info[1], v):
@@ -264,8 +281,10 @@ class Algebra:
     # ------------------------------------------------------------------ back to z3
     def atom_term(self, key):
         info = self.atoms[key]
-        if info[0] in ("const", "opaque"):
+        if info[0] in ("const", "opaque", "ufapp"):
             return info[1]
+        if info[0] == "ind":
+            return z3.If(info[1], z3.RealVal(1), z3.RealVal(0))
         if info[0] == "exp":
             return T.UF1["exp"](self.to_term(info[1]))
         if info[0] == "inv":
